@@ -278,22 +278,10 @@ func c02CLI(c *fw.Ctx, cs c02Case, text string, recs []sm.Record, o clidrv.Opts,
 		c.Violation("cli-print-totals", cs, fmt.Sprintf("`klog print --with-totals` failed (exit %d, panic %v): %s", r.Code, r.PanicVal, r.Err))
 		return
 	}
-	var cols []int
-	for _, l := range strings.Split(r.Stdout, "\n") {
-		k := strings.Index(l, "  |  ")
-		if k < 0 {
-			continue
-		}
-		v := strings.TrimSpace(l[:k])
-		if v == "" {
-			continue
-		}
-		d, ok := sm.ParseDuration(v)
-		if !ok {
-			c.Violation("cli-print-totals", cs, fmt.Sprintf("left column value %q is not a duration\n%s", v, r.Stdout))
-			return
-		}
-		cols = append(cols, d.Mins)
+	cols, bad := printTotalsColumn(r.Stdout)
+	if bad != "" {
+		c.Violation("cli-print-totals", cs, fmt.Sprintf("left column value %q is not a duration\n%s", bad, r.Stdout))
+		return
 	}
 	var wantCols []int
 	for _, rec := range recs {
@@ -373,4 +361,24 @@ func c02Now(c *fw.Ctx, i int) {
 	c02CLI(c, cs, text, closed, o, true)
 	_ = klog.SPEC_VERSION
 	_ = strconv.Itoa
+}
+
+// printTotalsColumn reads the left column of `klog print --with-totals` (durations in front of "  |  ").
+func printTotalsColumn(out string) (cols []int, bad string) {
+	for _, l := range strings.Split(out, "\n") {
+		k := strings.Index(l, "  |  ")
+		if k < 0 {
+			continue
+		}
+		v := strings.TrimSpace(l[:k])
+		if v == "" {
+			continue
+		}
+		d, ok := sm.ParseDuration(v)
+		if !ok {
+			return nil, v
+		}
+		cols = append(cols, d.Mins)
+	}
+	return cols, ""
 }
